@@ -48,19 +48,29 @@ func (s *Server) VerifServePacket(pc net.PacketConn) error { return s.servePacke
 type VerifPacketConn struct {
 	net.Conn
 	pc      *packetConn
-	CloseCh chan string
+	closeCh chan *packetConn
 }
 
 // VerifNewPacketConn builds the virtual UDP connection servePacket would build for addr.
 func VerifNewPacketConn(under net.PacketConn, addr net.Addr) *VerifPacketConn {
-	closeCh := make(chan string, 10)
+	closeCh := make(chan *packetConn, 10)
 	pc := &packetConn{
 		PacketConn: under,
 		readCh:     make(chan *packet, 5),
 		addr:       addr,
 		closeCh:    closeCh,
+		done:       make(chan struct{}),
 	}
-	return &VerifPacketConn{Conn: pc, pc: pc, CloseCh: closeCh}
+	return &VerifPacketConn{Conn: pc, pc: pc, closeCh: closeCh}
+}
+
+// DrainCloseNotifications consumes, in the background, the notifications the
+// virtual connection sends to its (absent) server loop.
+func (v *VerifPacketConn) DrainCloseNotifications() {
+	go func() {
+		for range v.closeCh {
+		}
+	}()
 }
 
 // Feed delivers one datagram to the virtual connection as the server loop would.
